@@ -12,19 +12,27 @@
     Exact call counts are compared too, but only reported as classes. *)
 From Coq Require Import List NArith ZArith Bool String.
 From ApiFu Require Import Base.Sexp Cplx.Tables Cplx.ParserDepthModel Cplx.MergeCountModel
-     Cplx.CostWalkCount Cplx.FragmentWalkCount Cplx.ComplexityDecode Cplx.ComplexitySpec Cplx.ComplexityRun.
+     Cplx.CostWalkCount Cplx.FragmentWalkCount Cplx.SpreadLists Cplx.TokenClass Cplx.ComplexityDecode Cplx.ComplexitySpec Cplx.ComplexityRun.
 Import ListNotations.
 Open Scope string_scope.
 Open Scope list_scope.
 Open Scope Z_scope.
 
-Definition K : Z := 20.
+Definition K : Z := 4.          (* measured: every component of every case of the quick and thorough
+                                   tiers agrees within a factor 3; at 2 about 100 quick cases differ *)
+Definition K_vars : Z := 8.     (* validateVariables spends about 30 statements on a variable definition
+                                   (3 nodes) and about 2 on any other node: measured ratio up to 5.2 *)
 Definition slack : Z := 400.    (* statements; keeps tiny cases (a few blocks) out of the ratio test *)
+(** the two loops over doc.Definitions at the beginning of ValidateCost: statements per definition *)
+Definition unit_cost_loop : Z := 2.
+Definition K_other : Z := 2.    (* the other rules: 32 .. 49 statements per AST node, unit 40 *)
 
 (** work and unit * steps agree within the factor K *)
 Definition within (work unit_ steps : Z) : bool :=
   (work <=? K * unit_ * steps + slack) && (unit_ * steps <=? K * work + slack).
 Definition at_most (work unit_ steps : Z) : bool := work <=? K * unit_ * steps + slack.
+Definition within_k (k work expected : Z) : bool :=
+  (work <=? k * expected + slack) && (expected <=? k * work + slack).
 
 Definition valid_work (o : obs) : Z :=
   num0 "ast" (o_work o) + num0 "fields" (o_work o) + num0 "frags" (o_work o) + num0 "vars" (o_work o)
@@ -37,6 +45,7 @@ Definition mk_run (cc : ccase) : run :=
      r_work_scan := num0 "scan" (o_work o); r_work_parse := num0 "parse" (o_work o);
      r_work_fields := num0 "fields" (o_work o); r_work_frags := num0 "frags" (o_work o);
      r_work_vars := num0 "vars" (o_work o); r_work_valid := valid_work o;
+     r_work_other := num0 "vother" (o_work o);
      r_doc := c_doc cc;
      r_cost := match o_cost o with Some k => Some (co_outcome k, co_all k) | None => None end;
      r_ns := o_ns o; r_cost_ns := match o_cost o with Some k => co_ns k | None => 0 end;
@@ -46,6 +55,25 @@ Definition mism (what : string) (a b : Z) : option sexp := Some (v_mismatch what
 
 Definition first_some (l : list (option sexp)) : option sexp :=
   fold_right (fun x acc => match x with Some _ => x | None => acc end) None l.
+
+Fixpoint toks_eqb (a b : list tok) : bool :=
+  match a, b with
+  | [], [] => true
+  | x :: a', y :: b' => tok_eqb x y && toks_eqb a' b'
+  | _, _ => false
+  end.
+
+(** the token classes the harness computed with the real scanner = the classes of the scanner
+    model's tokens (C07) under [tok_class], on every case that carries its text *)
+Definition token_classes_agree (cc : ccase) : option sexp :=
+  match c_text cc with
+  | None => None
+  | Some bs =>
+      match classes_of_bytes bs with
+      | Some cl => if toks_eqb cl (c_toks cc) then None else Some (v_mismatch "token-classes" [])
+      | None => Some (v_mismatch "scanner-model-out-of-fuel" [])
+      end
+  end.
 
 Definition compare (cc : ccase) (x : numbers) : option sexp :=
   let o := c_obs cc in
@@ -65,6 +93,7 @@ Definition compare (cc : ccase) (x : numbers) : option sexp :=
   let wp := num0 "parse" (o_work o) in
   let ws := num0 "scan" (o_work o) in
   first_some [
+    token_classes_agree cc;
     (if outcome_ok then None else Some (v_mismatch "parser-outcome" []));
     (if negb (x_ok x) then Some (v_mismatch "model-out-of-fuel" []) else None);
     (if crashed then None else
@@ -87,7 +116,9 @@ Definition compare (cc : ccase) (x : numbers) : option sexp :=
                then None else mism "merge-work" wf (x_merge x));
               (if negb (x_cycle_found x =? 0) || within wg unit_frags (2 * nd + x_cycle x)
                then None else mism "fragment-cycle-search-work" wg (x_cycle x));
-              (if within wv unit_vars (n_ops D + n_frags D + x_var x) then None else mism "variable-walk-work" wv (x_var x));
+              (if within_k K_vars wv (unit_vars * (n_ops D + n_frags D + x_var x)) then None else mism "variable-walk-work" wv (x_var x));
+              (if within_k K_other (num0 "vother" (o_work o)) (unit_other * nd) then None
+               else mism "other-rules-work" (num0 "vother" (o_work o)) nd);
               (if negb clean || within wt unit_valid (linear_passes * nd + x_merge x + x_cycle x + x_var x)
                then None else mism "validate-work" wt (x_merge x + x_cycle x + x_var x));
               (match o_cost o with
@@ -95,7 +126,8 @@ Definition compare (cc : ccase) (x : numbers) : option sexp :=
                    match co_outcome k with
                    | OAccepted =>
                        if x_cost_err x then Some (v_mismatch "cost-walk-outcome" [])
-                       else if within (co_all k) unit_cost (x_cost x) then None
+                       else if within_k K (co_all k) (unit_cost * (x_cost x - (n_ops D + n_frags D))
+                                                      + unit_cost_loop * (n_ops D + n_frags D)) then None
                        else mism "cost-walk-work" (co_all k) (x_cost x)
                    | _ => None
                    end
@@ -147,6 +179,7 @@ Definition check (c : sexp) : sexp :=
           | None => v_bad "decode"
           | Some cc =>
               if negb (match c_doc cc with Some D => doc_wf D | None => true end) then v_bad "document-tables"
+              else if negb (match c_doc cc with Some D => spreads_ok D | None => true end) then v_bad "spread-lists"
               else
                 match oracle (mk_run cc) with
                 | Some key => v_oracle_fail key [SSym (c_family cc); SZ (c_n cc)]
